@@ -327,9 +327,10 @@ func c09Set(c *core.Ctx, set []string, srv c09server) {
 	case "none":
 		prefixes = []urlT{{"http", "any.host", ""}}
 	case "relative-/v1":
-		prefixes = []urlT{{"http", "any.host", "/v1"}, {"http", "any.host", ""}, {"https", "h.t", "/v1"}}
+		// "/v1a": the server's base path ends inside a segment, which is not the server
+		prefixes = []urlT{{"http", "any.host", "/v1"}, {"http", "any.host", ""}, {"https", "h.t", "/v1"}, {"http", "any.host", "/v1a"}}
 	case "absolute":
-		prefixes = []urlT{{"https", "h.t", "/base"}, {"http", "h.t", "/base"}, {"https", "other.t", "/base"}, {"https", "h.t", ""}}
+		prefixes = []urlT{{"https", "h.t", "/base"}, {"http", "h.t", "/base"}, {"https", "other.t", "/base"}, {"https", "h.t", ""}, {"https", "h.t", "/baseb"}}
 	case "two-servers":
 		prefixes = []urlT{{"https", "h.t", "/base"}, {"http", "alt.t", ""}, {"https", "alt.t", ""}, {"http", "h.t", "/base"}}
 	case "escaped-base":
@@ -376,14 +377,16 @@ func c09Set(c *core.Ctx, set []string, srv c09server) {
 		var heldMethod, heldDesc string
 		for _, pf := range prefixes {
 			for _, p := range reqPaths {
-				for _, method := range []string{"GET", "POST", "DELETE", "HEAD"} {
+				for _, mq := range [][2]string{{"GET", ""}, {"POST", ""}, {"DELETE", ""}, {"HEAD", ""}, {"GET", "?"}, {"GET", "?q=a/b"}} {
+					// the query string (an empty one included) takes no part in routing
+					method, qs := mq[0], mq[1]
 					full := pf.path + p
-					target := pf.scheme + "://" + pf.host + full
+					target := pf.scheme + "://" + pf.host + full + qs
 					var req *http.Request
 					var err error
 					if srv.name == "relative-/v1" || srv.name == "none" {
 						// what net/http hands to a server-side handler: path-only URL, host in req.Host
-						req, err = http.NewRequest(method, full, nil)
+						req, err = http.NewRequest(method, full+qs, nil)
 						if err == nil {
 							req.Host = pf.host
 						}
